@@ -143,9 +143,24 @@ func newBundle(locale string, file po.File) (*bundle, error) {
 		if id == 0 {
 			return nil, fmt.Errorf("no id found in message: %#v", msg)
 		}
+		// an entry whose msgstrs are all empty is not translated (yet): it is left
+		// out, so the message falls back to its source text.
+		if untranslated(msg.Str) {
+			continue
+		}
 		msgs[id] = newMessage(id, varName, msg.Str)
 	}
 	return &bundle{msgs, locale, pluralize}, nil
+}
+
+// untranslated reports whether every msgstr of an entry is empty.
+func untranslated(msgstrs []string) bool {
+	for _, msgstr := range msgstrs {
+		if msgstr != "" {
+			return false
+		}
+	}
+	return true
 }
 
 func (b *bundle) Message(id uint64) *soymsg.Message {
